@@ -41,6 +41,7 @@ func main() {
 		list     = flag.Bool("list", false, "list properties")
 	)
 	flag.Parse()
+	applyRound2Texts()
 	if *verif == "" {
 		exe, _ := os.Executable()
 		*verif = filepath.Dir(filepath.Dir(exe))
